@@ -370,7 +370,7 @@ Proof.
   set (b2 := if nltb ROps (vdot ROps b1 b) (n0 ROps) then map (fun c => nmul ROps c (nneg ROps (n1 ROps))) b1 else b1).
   assert (vdot ROps b2 b2 = 1) as U2.
   { unfold b2. destruct (nltb ROps (vdot ROps b1 b) (n0 ROps)); [| exact U1]. cbn [ROps nmul nneg n1]. rewrite vdot_flip. exact U1. }
-  destruct (nltb ROps _ _); [exact U2 | apply IH; exact U2].
+  clearbody b2. destruct (nltb ROps _ _); [exact U2 | apply IH; exact U2].
 Qed.
 
 (** one step of inverse iteration keeps the direction of an exact eigenvector: if M v = lambda v and M_inv is a left inverse of
@@ -395,7 +395,8 @@ Proof.
 Qed.
 
 (** ** Non-vacuity *)
-Example ex_householder_hyp : exists k, (k < length (mcol ROps [[3; 1]; [4; 2]] 0))%nat /\ nth k (mcol ROps [[3; 1]; [4; 2]] 0) 0 <> 0.
+Definition ex_M : list (list R) := [[3; 1]; [4; 2]].
+Example ex_householder_hyp : exists k, (k < length (mcol ROps ex_M 0%nat))%nat /\ nth k (mcol ROps ex_M 0%nat) 0 <> 0.
 Proof. exists 0%nat. cbn. split; [lia | lra]. Qed.
 Example ex_similarity_hyp :
   let Q := [[0; 1]; [1; 0]] in let Rm := [[2; 3]; [0; 5]] in let A := [[0; 5]; [2; 3]] in
